@@ -68,12 +68,63 @@ theorem nsv_flatMap_filter (ls : List (Text σ)) (q : Text σ → Bool)
       simp only [List.flatMap_cons, nsv_append, ih']
       rw [hq l (by simp) (by simpa using hf), List.nil_append]
 
+theorem findAllAux_nl_cons (c : Char) (rest : List Char) (pos : Nat) :
+    findAllAux ['\n'] (c :: rest) pos 0 =
+      if c = '\n' then (pos, pos + 1) :: findAllAux ['\n'] rest (pos + 1) 0 else findAllAux ['\n'] rest (pos + 1) 0 := by
+  by_cases hc : c = '\n'
+  · subst hc; simp [findAllAux, List.isPrefixOf]
+  · have hc' : ¬ '\n' = c := fun h => hc h.symm
+    simp [findAllAux, List.isPrefixOf, hc, hc']
+
+/-- cutting `pre ++ s` at both ends of every newline of `s`: every piece is a newline or free of newlines -/
+theorem pieces_newline (s : List Char) : ∀ (pre : List Char) (start : Nat), start ≤ pre.length →
+    (∀ c ∈ pre.drop start, c ≠ '\n') →
+    ∀ p ∈ piecesFrom start ((findAllAux ['\n'] s pre.length 0).flatMap (fun m => [m.1, m.2])) (pre ++ s),
+      p = ['\n'] ∨ ∀ c ∈ p, c ≠ '\n' := by
+  induction s with
+  | nil =>
+    intro pre start _ hpre p hp
+    simp only [findAllAux, List.flatMap_nil, piecesFrom, List.append_nil, List.mem_singleton] at hp
+    subst hp; exact Or.inr hpre
+  | cons c rest ih =>
+    intro pre start hs hpre p hp
+    rw [findAllAux_nl_cons] at hp
+    have happ : pre ++ c :: rest = (pre ++ [c]) ++ rest := by simp
+    by_cases hc : c = '\n'
+    · subst hc
+      simp only [if_true, List.flatMap_cons, List.cons_append, List.nil_append, piecesFrom, List.mem_cons] at hp
+      rcases hp with rfl | rfl | hp
+      · right
+        intro c hc
+        have : (List.drop start (pre ++ '\n' :: rest)).take (pre.length - start) = pre.drop start := by
+          rw [List.drop_append_of_le_length hs, List.take_append_of_le_length (by simp)]
+          rw [List.take_of_length_le (by simp)]
+        rw [this] at hc
+        exact hpre c hc
+      · left
+        rw [List.drop_append_of_le_length (Nat.le_refl _)]
+        simp
+      · rw [happ] at hp
+        have := ih (pre ++ ['\n']) (pre.length + 1) (by simp) (by simp)
+        simp only [List.length_append, List.length_cons, List.length_nil, Nat.zero_add] at this
+        exact this p hp
+    · simp only [hc, if_false] at hp
+      rw [happ] at hp
+      have := ih (pre ++ [c]) start (by simp; omega) (by
+        intro x hx
+        rw [List.drop_append_of_le_length hs] at hx
+        rcases List.mem_append.mp hx with hx | hx
+        · exact hpre x hx
+        · simp only [List.mem_singleton] at hx; subst hx; exact hc)
+      simp only [List.length_append, List.length_cons, List.length_nil, Nat.zero_add] at this
+      exact this p hp
+
 /-- `self.split(allow_blank=True)`: the paragraphs of a consistent text are consistent, carry its base style, are
 made of its characters, and together show its non-whitespace characters with their styles -/
 theorem split_newline_ink [BEq σ] (t : Text σ) (h : Inv t) :
     ∃ lines, t.split Variant.repaired ['\n'] false true = .ok lines ∧
       nsv (lines.flatMap Text.view) = nsv t.view ∧
-      ∀ l ∈ lines, Inv l ∧ l.style = t.style ∧ ∀ c ∈ l.plain, c ∈ t.plain := by
+      ∀ l ∈ lines, Inv l ∧ l.style = t.style ∧ (∀ c ∈ l.plain, c ∈ t.plain) ∧ '\n' ∉ l.plain := by
   unfold Text.split
   simp only [List.isEmpty_cons, Bool.false_eq_true, if_false, Bool.not_true, Bool.false_and]
   split
@@ -83,7 +134,27 @@ theorem split_newline_ink [BEq σ] (t : Text σ) (h : Inv t) :
       simp only [List.mem_singleton] at hl
       subst hl
       rw [copy_eq_self t h]
-      exact ⟨h, rfl, fun c hc => hc⟩
+      refine ⟨h, rfl, fun c hc => hc, ?_⟩
+      rename_i hempty
+      intro hmem
+      -- no match at all although a newline is there: impossible
+      have : ∀ (s : List Char) (pos : Nat), '\n' ∈ s → findAllAux ['\n'] s pos 0 ≠ [] := by
+        intro s
+        induction s with
+        | nil => intro _ h; cases h
+        | cons c rest ih =>
+          intro pos hin
+          rw [findAllAux_nl_cons]
+          by_cases hc : c = '\n'
+          · simp [hc]
+          · simp only [hc, if_false]
+            apply ih
+            rcases List.mem_cons.mp hin with h | h
+            · exact absurd h.symm hc
+            · exact h
+      have hne := this t.plain 0 hmem
+      simp only [findAll, List.isEmpty_iff] at hempty
+      exact hne hempty
   · obtain ⟨hasc, hb⟩ := findAllAux_asc ['\n'] (by simp) t.plain 0 0
     obtain ⟨lines, hdiv, hview, hplain, hall⟩ := divide_view t _ h hasc (by simpa [findAll] using hb)
     simp only [findAll] at hdiv ⊢
@@ -97,10 +168,14 @@ theorem split_newline_ink [BEq σ] (t : Text σ) (h : Inv t) :
         simp [annot, nsv, show pyIsSpace '\n' = true from by decide]
     · intro l hl
       have hl' := (List.mem_filter.mp hl).1
-      refine ⟨(hall l hl').1, (hall l hl').2.1, ?_⟩
-      have : l.plain ∈ List.map (fun x => x.plain) lines := List.mem_map_of_mem hl'
-      rw [hplain] at this
-      exact mem_piecesFrom _ _ _ _ this
+      have hmem : l.plain ∈ List.map (fun x => x.plain) lines := List.mem_map_of_mem hl'
+      rw [hplain] at hmem
+      refine ⟨(hall l hl').1, (hall l hl').2.1, mem_piecesFrom _ _ _ _ hmem, ?_⟩
+      have hne : l.plain ≠ ['\n'] := by simpa using (List.mem_filter.mp hl).2
+      have := pieces_newline t.plain [] 0 (by simp) (by simp) l.plain (by simpa [pieces] using hmem)
+      rcases this with h1 | h1
+      · exact absurd h1 hne
+      · intro hin; exact h1 _ hin rfl
 
 end Wrap
 end RichModel
